@@ -31,7 +31,7 @@ PROPS = {
         assumptions=["messages are well-formed LDAPMessage envelopes in definite-length BER nested <= 100 levels"],
     ),
     "C11": dict(
-        groups=[("hostile", 6000, 400000), ("ber", 600, 20000), ("conn", 300, 20000), ("faults", 120, 600)],
+        groups=[("hostile", 6000, 400000), ("ber", 600, 20000), ("conn", 300, 20000), ("faults", 120, 600), ("frame", 100, 4000)],
         rule="all 1-byte strings, all 2-byte strings under six leading octets, every single-field mutation (class, number, primitive<->constructed, "
              "emptied, element dropped/swapped/added) of every node of a 16-message corpus, length-octet mutations (+-1, +-128, 0x80..0xff, "
              "truncation) at every TLV, random bytes, nesting 2..20000 levels, the recorded witnesses. non-trivial = distinct input that is not "
@@ -90,7 +90,7 @@ PROPS = {
         assumptions=["attribute lists are written without percent-encoding in the theorem; percent-encoded attribute names are F19 (known finding)"],
     ),
     "C02": dict(
-        groups=[("req", 1500, 100000), ("paged", 300, 20000)],
+        groups=[("req", 1500, 100000), ("paged", 300, 20000), ("conn", 300, 20000)],
         exact_lanes=["req", "paged"],
         rule="sequences of 1-6 real operations (all 11 kinds, arbitrary DNs incl. non-ASCII and 127/128/129/300-byte strings, byte values, empty and multi-valued lists, "
              "0-3 controls with/without criticality and value, timeouts, search options with boundary limits, unparsable filters, AddNoValues rejections, unbind last) on one handle over the "
@@ -135,7 +135,7 @@ PROPS = {
         assumptions=["callers on a current-thread runtime (Start = allocate id + enqueue atomically)", "theorems over whole histories: below the wrap-around of the 31-bit id counter (beyond it: the id-table hook lane)"],
     ),
     "C12": dict(
-        groups=[("conn", 600, 40000)],
+        groups=[("conn", 600, 40000), ("stall", 24, 600)],
         exact_lanes=["msgid"],
         rule="scripts of 3-16 steps over the real driver (current-thread runtime, paused clock, in-memory transport): start single/direct-search/adapted-search/abandon/unbind operations on cloned handles with and without timeouts (0, 1, 1000, 5000 ms), server responses for live, finished and unknown ids (entries, references, intermediates, done, other ops) delivered in two writes, clock advances around the deadlines, next()/finish() calls, EOF / garbage / read error / write error / partial message / handle drop; observation after EVERY step (per-op status and delivered tokens, request log, id table, routing gauges, driver result). non-trivial = distinct script in which at least one operation completed. one script in four gives every operation a timeout",
         trivial=[],
@@ -143,7 +143,7 @@ PROPS = {
         assumptions=["callers on a current-thread runtime (Start = allocate id + enqueue atomically)", "theorems over whole histories: below the wrap-around of the 31-bit id counter (beyond it: the id-table hook lane)"],
     ),
     "C13": dict(
-        groups=[("conn", 600, 40000), ("pagedstop", 300, 30000)],
+        groups=[("conn", 600, 40000), ("pagedstop", 300, 30000), ("stall", 24, 600)],
         exact_lanes=["msgid"],
         rule="scripts of 3-16 steps over the real driver (current-thread runtime, paused clock, in-memory transport): start single/direct-search/adapted-search/abandon/unbind operations on cloned handles with and without timeouts (0, 1, 1000, 5000 ms), server responses for live, finished and unknown ids (entries, references, intermediates, done, other ops) delivered in two writes, clock advances around the deadlines, next()/finish() calls, EOF / garbage / read error / write error / partial message / handle drop; observation after EVERY step (per-op status and delivered tokens, request log, id table, routing gauges, driver result). non-trivial = distinct script in which at least one operation completed. one script in four is driven to quiescence (every op answered, every stream finished); oracle: nothing reserved or routed at quiescence",
         trivial=[],
